@@ -134,10 +134,12 @@ def _assumed(assume, key):
 
 
 def eval_bool(F, fid, variant_discr, depth=0, cache=None):
-    """possible return values of the predicate `fid(&DataType) -> bool` when its first parameter is the
-    given variant: subset of {True, False, None(unknown)}"""
+    """possible return values of the predicate `fid(&DataType, ..) -> bool`: subset of {True, False, None}.
+    `variant_discr` is either a discriminant string (first parameter assumed) or a dict
+    {parameter index (1-based): discriminant}."""
     cache = cache if cache is not None else {}
-    ck = (fid, variant_discr)
+    pa = variant_discr if isinstance(variant_discr, dict) else {1: variant_discr}
+    ck = (fid, tuple(sorted(pa.items())))
     if ck in cache:
         return cache[ck]
     cache[ck] = {None}
@@ -145,26 +147,38 @@ def eval_bool(F, fid, variant_discr, depth=0, cache=None):
     if fn is None or "mir" not in fn or depth > 6:
         return {None}
     body = Body(fn)
-    assume = {1: variant_discr}
+    assume = dict(pa)
     known = {}
     # constants and resolvable predicate calls
     from .mirlib import callee
-    from .flow import norm
     for b in range(body.n):
         t = body.term(b)
         if t["k"] == "call" and not t["dest"][1] and t.get("rt") == "bool" and t["args"]:
-            l = op_local(t["args"][0])
-            if l is not None:
+            sub = {}
+            for ai, a in enumerate(t["args"]):
+                l = op_local(a)
+                if l is None:
+                    continue
                 r, path = _root_of(body, l)
-                if _assumed(assume, (r, path)) is not None or (path == () and r in assume):
-                    cn = callee(t)
-                    res = eval_bool(F, cn, variant_discr, depth + 1, cache)
-                    if len(res) == 1 and None not in res:
-                        known[t["dest"][0]] = next(iter(res))
+                v = _assumed(assume, (r, path))
+                if v is not None:
+                    sub[ai + 1] = v
+            cn_ = callee(t) or ""
+            if len(sub) == 2 and ("PartialEq" in cn_) and cn_.endswith("::eq") and sub[1] != sub[2]:
+                known[b] = False
+                continue
+            if len(sub) == 2 and ("PartialEq" in cn_) and cn_.endswith("::ne") and sub[1] != sub[2]:
+                known[b] = True
+                continue
+            if sub:
+                res = eval_bool(F, callee(t), sub, depth + 1, cache)
+                if len(res) == 1 and None not in res:
+                    known[b] = next(iter(res))
     # flow-sensitive constant propagation of bool locals along the pruned CFG
     state_in = {0: {}}
     work = deque([0])
     rets = set()
+    ret_assigned = {}
     visits = 0
     while work and visits < 20000:
         visits += 1
@@ -176,6 +190,7 @@ def eval_bool(F, fid, variant_discr, depth=0, cache=None):
             dst = s_[1][0]
             rv = s_[2]
             val = None
+            _is_ret = dst == 0
             if rv[0] == "use" and rv[1][0] == "k" and rv[1][1] in ("true", "false"):
                 val = rv[1][1] == "true"
             elif rv[0] == "use" and op_local(rv[1]) is not None and not op_place(rv[1])[1] and op_local(rv[1]) in st:
@@ -186,14 +201,18 @@ def eval_bool(F, fid, variant_discr, depth=0, cache=None):
                 st.pop(dst, None)
             else:
                 st[dst] = val
+            if _is_ret:
+                ret_assigned.setdefault((b, id(s_)), set()).add(val)
         t = body.term(b)
         succ = body.succ(b)
         if t["k"] == "call" and not t["dest"][1]:
             d = t["dest"][0]
-            if d in known:
-                st[d] = known[d]
+            if b in known:
+                st[d] = known[b]
             else:
                 st.pop(d, None)
+            if d == 0:
+                ret_assigned.setdefault((b, "t"), set()).add(known.get(b))
         elif t["k"] == "switch":
             dr = discr_root(body, b)
             bs = body.bool_switch(b)
@@ -215,7 +234,13 @@ def eval_bool(F, fid, variant_discr, depth=0, cache=None):
                 if new_ != old:
                     state_in[x] = new_
                     work.append(x)
-    out = rets
+    # the value of _0: per assignment site, the values seen over all visits (a site visited with both a
+    # known and an unknown state counts as unknown)
+    out = set()
+    for k, vals in ret_assigned.items():
+        out |= ({None} if None in vals else vals)
+    if not out:
+        out = rets
     cache[ck] = out or {None}
     return cache[ck]
 
